@@ -168,6 +168,11 @@ class _Outs:
         self.frame = frame
         self.seen = {}
 
+    def keep(self, o):
+        key = ("stop", o.value, frozenset(o.store.items()))
+        if key not in self.seen:
+            self.seen[key] = o
+
     def append(self, o):
         o.store = {k: v for k, v in o.store.items() if k[0] != self.frame}
         key = (o.kind, _h(o.value), frozenset(o.store.items()))
@@ -310,7 +315,7 @@ class Interp:
         if k == "static":
             return StaticRef(o["path"])
         if k == "promoted":
-            return ("promoted", o["path"], o["index"])
+            return self.promoted_value(o["path"], o["index"])
         if k == "const":
             v = F.const_val(o)
             if v is None:
@@ -323,6 +328,43 @@ class Interp:
             if o.get("ty") == "bool":
                 return Const(bool(v))
             return Const(v)
+        return TOP
+
+    def promoted_value(self, path, index):
+        """Value of a promoted constant (straight-line MIR), as a core value; TOP when it cannot be evaluated."""
+        key = (path, index)
+        cache = self.__dict__.setdefault("_prom", {})
+        if key in cache:
+            return cache[key]
+        from .. import tables
+        v = TOP
+        for crate in ("anything", "any"):
+            if self.facts.promoted(path, index, crate) is not None:
+                try:
+                    v = self._from_tree(tables.static_value(self.facts, path, index, crate))
+                except tables.StaticEvalError:
+                    v = TOP
+                break
+        cache[key] = v
+        return v
+
+    def _from_tree(self, t):
+        if isinstance(t, bool):
+            return Const(t)
+        if isinstance(t, (int, str)):
+            return Const(t)
+        if isinstance(t, tuple) and t and t[0] in ("fn", "closure"):
+            return FnV(t[1])
+        if isinstance(t, dict):
+            vi = None
+            a = self.facts.adt(t["adt"]) or self.facts.adt(t["adt"], "any")
+            if a is not None:
+                for i, v in enumerate(a["variants"]):
+                    if v["name"] == t["variant"]:
+                        vi = i
+            kind = "adt" if t["variant"] is not None else t["adt"]
+            return Agg(kind, t["adt"] if t["variant"] is not None else None, vi, t["variant"],
+                       [self._from_tree(f) for f in t["fields"]])
         return TOP
 
     # ---- rvalues -----------------------------------------------------------------------------
@@ -420,12 +462,17 @@ class Interp:
         return TOP
 
     # ---- running -----------------------------------------------------------------------------
-    def run(self, body, args, store, depth=0):
-        """Explore `body` with argument values `args`; returns a list of Outcome."""
+    def run(self, body, args, store, depth=0, start=None, stop=()):
+        """Explore `body` with argument values `args`; returns a list of Outcome.
+        start=(block id, store): resume an activation of this body (same frame) at that block.
+        stop: block ids at which exploration ends with an Outcome of kind 'stop' (value = block id, full store)."""
         frame = depth + 1
-        st = {k: v for k, v in store.items() if k[0] != frame}
-        for i, a in enumerate(args):
-            st[(frame, i + 1)] = a
+        if start is None:
+            st = {k: v for k, v in store.items() if k[0] != frame}
+            for i, a in enumerate(args):
+                st[(frame, i + 1)] = a
+        else:
+            st = dict(start[1])
         live = getattr(body, "_live", None)
         if live is None:
             from .. import cfg as _cfg
@@ -433,9 +480,14 @@ class Interp:
         live_in, addr = live
         outs = _Outs(frame)
         visited = set()
-        work = [(0, st)]
+        work = [(0 if start is None else start[0], st)]
+        first = True
         while work:
             bid, st = work.pop()
+            if bid in stop and not (first and start is not None):
+                outs.keep(Outcome("stop", bid, st, body.site(body.blocks[bid]["term"]["span"])))
+                continue
+            first = False
             keep = live_in[bid]
             st = {k: v for k, v in st.items() if k[0] != frame or k[1] in keep or k[1] in addr}
             key = (bid, self._freeze(st, frame))
@@ -516,7 +568,32 @@ class Interp:
     def _freeze(self, st, frame):
         return frozenset(st.items())
 
+    def apply_closure(self, clos, args, st, depth):
+        """Call a closure value (Agg kind 'closure') or fn item with the given argument values."""
+        path = clos.path if isinstance(clos, (Agg, FnV)) else None
+        body = self.facts.fn(path) if path else None
+        if body is None or depth >= self.dom.inline_depth + 2:
+            return None
+        if isinstance(clos, Agg):
+            env = clos
+            if body.arg_count >= 1 and body.local_ty(1).startswith("&"):
+                n = self.__dict__.setdefault("_tmp", 1000)
+                self._tmp = n + 1
+                st = self.sset(st, 0, n, clos)
+                env = Ref(0, n)
+            argv = [env] + list(args)
+        else:
+            argv = list(args)
+        res = []
+        for o in self.run(body, argv, st, depth + 1):
+            if o.kind == "ret":
+                res.append(("ret", o.value, o.store))
+            else:
+                res.append(("panic", "%s in closure %s at %s" % (o.value, path, o.site), o.store))
+        return res
+
     def _call(self, body, frame, t, sp, st, depth):
+        self._cur_depth = depth
         args = [self.operand(st, frame, a) for a in t["args"]]
         name = F.callee(t)
         if not name:
@@ -594,6 +671,31 @@ class Interp:
             if isinstance(v, Agg) and v.path in ("std::result::Result", "std::option::Option"):
                 return [(v, st)]
             return [(TOP, st)]
+        if n == "std::option::Option::<T>::and_then" and len(args) == 2 and isinstance(args[0], Agg) \
+                and args[0].path == "std::option::Option":
+            if args[0].vi == 0:
+                return [(NONE, st)]
+            r = self.apply_closure(args[1], [args[0].field(0)], st, getattr(self, "_cur_depth", 0))
+            if r is not None:
+                return r
+        if n == "std::option::Option::<T>::map" and len(args) == 2 and isinstance(args[0], Agg) \
+                and args[0].path == "std::option::Option":
+            if args[0].vi == 0:
+                return [(NONE, st)]
+            r = self.apply_closure(args[1], [args[0].field(0)], st, getattr(self, "_cur_depth", 0))
+            if r is not None:
+                return [(k, some(v) if k == "ret" else v, s2) for k, v, s2 in r]
+        if n.endswith("::transpose") and "Result" in n and len(args) == 1 and isinstance(args[0], Agg) \
+                and args[0].path == "std::result::Result":
+            r = args[0]
+            if r.vi == 1:
+                return [(some(err(r.field(0))), st)]
+            inner = r.field(0)
+            if isinstance(inner, Agg) and inner.path == "std::option::Option":
+                return [(NONE if inner.vi == 0 else some(ok(inner.field(0))), st)]
+        if n == "std::option::Option::<T>::take" and len(args) == 1:
+            old = self.read_ref(st, args[0])
+            return [(old, self.write_ref(st, args[0], NONE))]
         if n in ("std::mem::take", "std::mem::replace"):
             old = self.read_ref(st, args[0])
             new = args[1] if n.endswith("replace") else TOP
